@@ -61,9 +61,18 @@ def pOp : P Op := do
   | "term" => do let s ← pSize; pure (.termSize s)
   | _ => failure
 
+/-- `none | some n | postponed none | postponed some n` — the declared frame count -/
+def pDeclared : P Declared := do
+  let k ← word
+  if k == "none" then pure .indefinite
+  else if k == "some" then do let n ← nat; pure (.definite n)
+  else if k == "postponed" then do let r ← optOf nat; pure (.postponed r)
+  else failure
+
 /-- `<count> <loops> <cache> <padding> <args> <size> <dur> <rFrame> <term>` -/
 def pInit : P Init := do
-  let count ← optOf nat
+  let declared ← pDeclared
+  let count := declared.resolve   -- `initD`: the property resolves the count before `_init` looks at it
   let loops ← int
   let cache ← pCache
   let padding ← pPadding
@@ -139,7 +148,7 @@ def handler : Handler := fun op args =>
         | .error e, _ => "err " ++ fmtErr e
         | _, .error e => "err " ++ fmtErr e)) args
   | "decision" => Wire.run (do
-      let count ← optOf nat; let loops ← int; let cache ← pCache
+      let declared ← pDeclared; let count := declared.resolve; let loops ← int; let cache ← pCache
       pure s!"ok {fmtBool (cachedDecision count cache)} {fmtBool (cachedDecision count (drawCache loops cache))}") args
   | _ => none
 
